@@ -48,6 +48,12 @@ Theorem T16_1_partial_no_with :
 Proof. exact blocking_sound_no_with. Qed.
 Print Assumptions T16_1_partial_no_with.
 
+(* T16.8  the constant-test branch of delete_unreachable_code (dead else / dead body / dead `if False:` /
+   `while False:` without else) keeps the possible outcomes of the statement *)
+Theorem T16_8_dead_const_sound : forall sup s, outcomes_block sup (apply_dead s) = outcomes sup s.
+Proof. exact dead_const_sound. Qed.
+Print Assumptions T16_8_dead_const_sound.
+
 (* ===================== classification of `for` iterables inside is_blocking ===================== *)
 Require Import Pyrefact.IterModel Pyrefact.IterProofs.
 
